@@ -1,6 +1,6 @@
 """C18 — snapshot operations honour the tree lock (schedules).
 
-Seven kinds of cases, all evaluated by the Coq lock machine (CaseLock.run18) and by the code:
+Nine kinds of cases (plus the extractor self-tests), all evaluated by the Coq lock machine (CaseLock.run18) and by the code:
 
   sched  arbitrary thread programs (Acq/Rel/Read/Write) under an arbitrary schedule, re-executed by REAL
          threads on the `_lock` object of a real nutree Tree, one event per scheduler tick
@@ -29,6 +29,16 @@ Seven kinds of cases, all evaluated by the Coq lock machine (CaseLock.run18) and
   inv    the owner calls an operation INSIDE `with tree:` while a reader is ALREADY blocked on the tree lock
          (signalled by a probe wrapper of the lock): the owner must complete (re-entrancy; no second lock
          taken in the opposite order), then the reader completes on the committed state.
+
+  alias  PRIVATE SNAPSHOT: save() serialises after the release, to_dict_list() hands its result out - so nothing in the
+         document given to json.dump (captured by wrapping json.dump for the call) / in the returned list may BE
+         (`is`) a live node-data dict, a nested mutable of it, a meta dict or a child list; for every stock mapper
+         (none, Tree/TypedTree.serialize_mapper, DictWrapper.serialize_mapper, a user mapper) x str / DictWrapper data
+         x stream / path; a shared object is one more Read at the moment it is consumed (json.dump time, or after
+         the return) in the trace that the machine judges;
+  dump   the schedule for it (Events only): the reader is paused in its first write() - after the release for
+         Tree.save, under the lock for to_dotfile and TypedTree.save - while a writer changes two nodes' data IN
+         PLACE inside one `with tree:`; the written document must be the state before the section.
 
 Waiting for something that must NOT happen (0.12 s) can only fail to detect; waiting for something that
 must happen is bounded by 20 s (a false alarm needs a 20 s stall of a trivial operation).
@@ -795,8 +805,14 @@ def live_objects(tree):
 
 
 def aliases(result, tree):
-    """Paths of the live objects that the (detached?) result contains."""
-    live = live_objects(tree)
+    """Paths of the live objects that the (detached?) result contains.  (The harness' own walk over the live tree is
+    not part of the operation: recording is suspended meanwhile.)"""
+    armed = _ARM["tree"]
+    _ARM["tree"] = None
+    try:
+        live = live_objects(tree)
+    finally:
+        _ARM["tree"] = armed
     mine: dict = {}
     _mutables(result, "result", mine, set())
     return sorted(f"{rp} IS {live[i]}" for i, rp in mine.items() if i in live)
@@ -816,6 +832,8 @@ def capture_save_document(tree, mapper, target):
     def spy(obj, fp, *a, **k):
         if "doc" not in box:
             box["doc"] = obj
+            if aliases(obj, tree):
+                _rec(tree, R)          # serialising it reads live node data - here, wherever the lock stands now
         return orig(obj, fp, *a, **k)
 
     _json.dump = spy
@@ -946,6 +964,11 @@ class Prop:
                         if via == "to_dotfile" and (mp != "none" or data_kind != "str"):
                             continue      # (DOT ids of DictWrapper data are object ids: documents not comparable)
                         yield dict(k="dump", typed=typed, data=data_kind, mapper=mp, via=via)
+            # D93 (unchanged code): DictWrapper.serialize_mapper copies SHALLOWLY - a mutable value inside the
+            # wrapped dict is still shared with the document that json.dump reads after the release
+            for via in ("save_stream", "to_dict_list"):
+                yield dict(k="alias", typed=typed, data="dictwrapper_nested", mapper="dictwrapper", via=via)
+            yield dict(k="dump", typed=typed, data="dictwrapper_nested", mapper="dictwrapper", via="save")
         # the owner calls an operation inside `with tree:` while a reader is already blocked on the tree lock
         pairs = [(op, op) for op in GOOD_OPS] + [("save_path", "to_dotfile_path"), ("to_dotfile_path", "save_path"),
                                                   ("save_path", "save"), ("with", "save_path")]
@@ -1280,17 +1303,24 @@ class Prop:
         raw, res, finished = record(tree, guarded_call)
         tr = collapse(raw)
         shared = aliases(box.get("doc"), tree) if box.get("doc") is not None else []
-        # what is read AFTER the release: every live object the result still refers to
-        tr_eff = tr + ([R] if shared else [])
-        fail = trace_oracle(tr, label) if finished else f"alias: {label}: the operation does not return"
-        if fail is None and shared:
+        # a result that still refers to live node data is read when it is consumed: by json.dump (recorded by the spy at
+        # that moment - TypedTree.save serialises inside its outer bracket, Tree.save after the release), by the
+        # caller of to_dict_list after the return
+        tr_eff = tr + ([R] if shared and via == "to_dict_list" else [])
+        fail = (None if trace_oracle(tr_eff, label) is None or shared else trace_oracle(tr_eff, label)) if finished \
+            else f"alias: {label}: the operation does not return"
+        if fail is None and shared and trace_oracle(tr_eff, label) is not None:
             what = "the document handed to json.dump after the lock was released" if via.startswith("save") else "the returned list"
             fail = (f"alias: {label}(mapper={mp}, data={data_kind}): {what} contains LIVE node data ({shared[0]}"
                     f"{' and %d more' % (len(shared) - 1) if len(shared) > 1 else ''}): it is read outside `with tree:`")
+        finding = None
+        if fail and shared and data_kind == "dictwrapper_nested" and all("['tags'] IS " in x and x.endswith("['tags']") for x in shared):
+            finding = "D93"       # exactly the nested lists, nothing else: the shallow copy of the unchanged code
         err = bool(res and str(res).startswith("ERR"))
         member = not shared and not err
+        tr = tr_eff
         coq = f"CTrace {H.coq_text(('' if member else 'exc:') + label)} {H.coq_list(str(e) for e in tr_eff)}"
-        return Case(desc=desc, coq_input=coq, impl_obs=trace_obs(tr_eff, member=member), oracle_fail=fail, nontrivial=R in tr,
+        return Case(desc=desc, coq_input=coq, impl_obs=trace_obs(tr_eff, member=member), oracle_fail=fail, finding=finding, nontrivial=R in tr,
                     key=H.digest(desc), stats=dict(kind="alias", label=label, mapper=mp, data=data_kind, aliased=min(len(shared), 3),
                                                    result_error=err))
 
@@ -1381,30 +1411,66 @@ class Prop:
             fail = (f"dump: {label}(mapper={mp}, data={data_kind}): the written document is not a state between two critical "
                     f"sections: the reader had taken its snapshot before the writer entered `with tree:`, but the document "
                     f"{'equals state %d' % seen[0] if seen else 'is the state in the MIDDLE of the section / a mixture'}")
-        # model: the reader's (recorded) program runs first, then the writer's section; it sees version 0
-        _, _, rtr, _, _ = self._traced_dw(typed, data_kind, run_op_stream)
-        ps = [rtr, [A, W, W, L]]
-        sched = [0] * len(rtr) + [1] * 4
-        ok_seen = [0] if (unusable or seen == [0]) else ([seen[0]] if seen else [1])
-        obs = [bool(rfin and wfin), True, all(py_bracketed(p) for p in ps), [ok_seen if R in rtr else []]]
+        finding = None
+        if fail and data_kind == "dictwrapper_nested" and not seen and rfin and wfin:
+            try:      # exactly the shallow-copy effect: state 0 everywhere except the nested lists
+                got, want = json.loads(text), json.loads(docs[0])
+                strip = lambda d: json.loads(json.dumps(d).replace('"debited"', '"x"').replace('"credited"', '"x"'))  # noqa: E731
+                flat = lambda d: [{k: v for k, v in e[1].items() if k != "tags"} for e in d["nodes"]]  # noqa: E731
+                if flat(got) == flat(want) and strip(got) != strip(want) or flat(got) == flat(want):
+                    finding = "D93"
+            except Exception:  # noqa: BLE001
+                pass
+        # model: the reader's recorded program, split where its first write() paused; a document that still refers to
+        # live node data is one more Read when it is serialised (after the pause).  The writer gets in at the pause
+        # iff the reader does not hold the lock there.
+        pre, post = self._traced_dw(typed, data_kind, run_op_stream)
+        held = sum(1 if e == A else -1 if e == L else 0 for e in pre)
+        ps = [pre + post, [A, W, W, L]]
+        sched = [0] * len(pre) + ([1, 1] if held == 0 else []) + [0] * len(post) + ([1, 1] if held == 0 else [1] * 4)
+        ok_seen = [0] if (unusable or seen == [0]) else [0, 1]     # structure at 0, (some) data from inside the section
+        obs = [bool(rfin and wfin), True, all(py_bracketed(p) for p in ps), [ok_seen if R in ps[0] else []]]
         coq = (f"CHist {H.coq_list(H.coq_list(str(e) for e in p) for p in ps)} {H.coq_list(str(t) for t in sched)} "
                f"{H.coq_list(['0'])}")
-        return Case(desc=desc, coq_input=coq, impl_obs=obs, oracle_fail=fail, nontrivial=not unusable,
+        return Case(desc=desc, coq_input=coq, impl_obs=obs, oracle_fail=fail, finding=finding, nontrivial=not unusable,
                     key=H.digest(desc), stats=dict(kind="dump", label=label, mapper=mp, data=data_kind, compared=not unusable))
 
     def _traced_dw(self, typed, data_kind, run_op_stream):
+        """(events before the first write(), events from there on) of the operation on an equal tree, single-threaded;
+        the second part starts with a Read if the document handed to json.dump still refers to live node data."""
+        import json as _json
+
         tree, _, _, _ = build_dw_tree(typed, data_kind)
         tree._lock = RecLock(tree._lock, tree)
+        mark = {"split": None, "leak": False}
+        orig = _json.dump
+
+        def spy(obj, fp, *a, **k):
+            mark["leak"] = mark["leak"] or bool(aliases(obj, tree))
+            return orig(obj, fp, *a, **k)
+
+        class Marking(io.StringIO):
+            def write(self2, text):
+                if mark["split"] is None:
+                    mark["split"] = len(_ARM["log"]) if _ARM["log"] is not None else 0
+                    if mark["leak"]:
+                        _rec(tree, R)
+                return super().write(text)
 
         def call():
             try:
-                run_op_stream(tree, io.StringIO())
+                run_op_stream(tree, Marking())
                 return "ok"
             except Exception as e:  # noqa: BLE001
                 return _err(e)
 
-        raw, res, finished = record(tree, call)
-        return tree, None, collapse(raw), len(raw), res
+        _json.dump = spy
+        try:
+            raw, res, finished = record(tree, call)
+        finally:
+            _json.dump = orig
+        k = len(raw) if mark["split"] is None else mark["split"]
+        return collapse(raw[:k]), collapse(raw[k:])
 
     # --- inv: the owner calls an operation nested while a reader is ALREADY blocked on the tree lock
     def run_inv(self, desc, tmp):
